@@ -190,8 +190,17 @@ async fn main(plan: Plan) -> Outcome {
         keepalive_interval: Some(Duration::from_secs(3)),
         keepalive_timeout: Some(Duration::from_secs(2)),
         refresh_interval: Duration::from_secs([60, 2][tape::choose("c20:refresh", 2) as usize]),
+        // 1 in 4: the keyspace is (also) set when the session is created; once the builder
+        // has returned the session, that is a successful keyspace-setting call like any other.
+        initial_keyspace: if tape::chance("c20:initial_keyspace", 1, 4) {
+            let name = KEYSPACES[tape::choose("c20:initial_ks", KEYSPACES.len() as u64) as usize];
+            Some((name.to_string(), name.chars().any(|c| c.is_ascii_uppercase())))
+        } else {
+            None
+        },
         ..SessionCfg::default()
     };
+    let build_start = world::now_ns();
     let session = match client::build_session(&cfg).await {
         Ok(s) => Arc::new(s),
         Err(e) => {
@@ -199,6 +208,7 @@ async fn main(plan: Plan) -> Outcome {
             return out;
         }
     };
+    let build_end = world::now_ns();
     world::sleep_ns(300 * MS).await;
     let span = plan.span_ms * MS;
     let t0 = world::now_ns();
@@ -302,6 +312,10 @@ async fn main(plan: Plan) -> Outcome {
     });
     // The USE caller: one call at a time (the documented usage).
     let mut calls: Vec<UseCall> = Vec::new();
+    if let Some((name, cs)) = &cfg.initial_keyspace {
+        out.count("keyspace_set_at_session_creation", 1);
+        calls.push(UseCall { name: name.clone(), case_sensitive: *cs, start: build_start, end: build_end, ok: true });
+    }
     for _ in 0..plan.use_calls {
         world::sleep_ns(tape::range("c20:use_gap", 0, span / plan.use_calls as u64)).await;
         let mut which = tape::choose("c20:which_ks", KEYSPACES.len() as u64) as usize;
